@@ -538,6 +538,78 @@ func exec(op string) vlib.Res {
 		}
 		return vlib.Res{Impl: impl, Oracle: or, Tags: "nt,cachewire"}
 
+	case "edns hit":
+		// the REAL cache handler between edns and a terminal that must not be
+		// reached: the entry is admitted first, then the query is served as a hit
+		path, proto := f[2], f[3]
+		q, r := parseQ(f[4]), parseR(f[5])
+		raw := rawQuery(q)
+		orig := new(dns.Msg)
+		if err := orig.Unpack(raw); err != nil {
+			return vlib.Res{Impl: "undecodable"}
+		}
+		ccfg := curCfg.config()
+		ccfg.CacheSize, ccfg.Expire = 1024, 600
+		c := cache.New(ccfg)
+		defer c.Stop()
+		admit := new(dns.Msg)
+		_ = admit.Unpack(raw)
+		up := buildUpstream(r, admit)
+		if lb := checkLens(q, r, up); lb != "" {
+			return vlib.Res{Impl: lb}
+		}
+		cache.VerifC06Seed(c, up)
+		w := newCapW(proto)
+		missed := false
+		terminal := middleware.HandlerFunc(func(_ context.Context, ch *middleware.Chain) {
+			missed = true
+			ch.Cancel()
+		})
+		ch := middleware.NewChain([]middleware.Handler{recovery.New(ccfg), curEDNS, c, terminal})
+		var rq middleware.Request
+		wire := false
+		if path == "w" && rq.ParseWire(raw, time.Now(), nil) {
+			ch.ResetWire(w, &rq)
+			wire = true
+		} else {
+			req := new(dns.Msg)
+			_ = req.Unpack(raw)
+			ch.Reset(w, req)
+		}
+		if proto == "udp" || proto == "tcp" {
+			ch.AllowDirectPack()
+		}
+		chase0, _ := cache.VerifC06WireCounters()
+		ch.Next(context.Background())
+		ch.Finish()
+		if missed {
+			return vlib.Res{Impl: "miss", Oracle: "-", Tags: "hit-missed"}
+		}
+		reply := w.msg
+		impl := curCfg.ctx().absReply(reply, orig)
+		or := "-"
+		tags := "nt,hit"
+		if w.raw != nil {
+			tags += ",hit-bytes"
+			or = judgeHinted("edns/hit-"+proto, entryKind{proto: proto}, curCfg.deploy(), raw, w.raw, aR{})
+		} else if reply != nil {
+			tags += ",hit-msg"
+			if packed, err := packReply(reply); err == nil {
+				jp := map[string]string{"doq": "doq-noid"}[proto]
+				if jp == "" {
+					jp = proto
+				}
+				or = judgeHinted("edns/hit-"+proto, entryKind{proto: jp}, curCfg.deploy(), raw, packed, aR{})
+			}
+		}
+		if c1, _ := cache.VerifC06WireCounters(); c1 > chase0 {
+			tags += ",wire-chase-composed"
+		}
+		if wire {
+			tags += ",wireborn"
+		}
+		return vlib.Res{Impl: impl, Oracle: or, Tags: tags}
+
 	case "edns tomsg":
 		q, r := parseQ(f[2]), parseR(f[3])
 		raw := rawQuery(q)
